@@ -295,6 +295,7 @@ def run_shard(ctx):
         run_case(ctx, case)
     structural(ctx)
     single_model_twin(ctx)
+    solve_versus_loop(ctx)
 
 
 def structural(ctx):
@@ -393,6 +394,52 @@ def structural(ctx):
             ctx.violation('linker-offset-out-of-span', f'solve_t({t}, offset={off}) raised IndexError after changing state', {'kind': 'offset-out', 't': t, 'offset': off})
 
 
+def solve_versus_loop(ctx):
+    """linker.solve(submodels=sel, ...) over several periods == the ordered loop of linker.solve_t(t, submodels=sel, ...): same
+    return values, same call log, same state of the linker and of every submodel - for every kind of selection, the empty one
+    (linker only) and None (all) included."""
+    rng = ctx.rng('c08-loop')
+    for i in range(ctx.pick(150, 3000)):
+        keys = rng.sample(['a', 'b', 'c', 'd'], rng.choice([1, 2, 2, 3]))
+        subs = {k: [[rng.choice(OUTS), rng.choice(['same', 'small', 'big'])] for _ in range(rng.randrange(0, 4))] for k in keys}
+        sel = rng.choice([None, [], (), list(keys), keys[:1], list(reversed(keys)), rng.sample(keys, rng.randrange(0, len(keys) + 1))])
+        case = dict(kind='solve-vs-loop', n=4, t=0, subs=subs, lscript=[rng.choice(OUTS) for _ in range(rng.randrange(0, 3))], tol=0.5,
+                    selected=None if sel is None else list(sel), selected_type=type(sel).__name__, min_iter=rng.choice([0, 0, 1, 2]), max_iter=rng.choice([1, 2, 4, 6]), failures='ignore')
+        ctx.evaluation(case, nontrivial=True, sample=case)
+        kw = dict(min_iter=case['min_iter'], max_iter=case['max_iter'], tol=0.5, failures='ignore')
+        if sel is not None:
+            kw['submodels'] = sel
+        if kw['min_iter'] > kw['max_iter']:
+            kw['min_iter'] = kw['max_iter']      # (what a linker does with min_iter > max_iter is not part of the statement)
+        if rng.random() < 0.3:
+            kw.pop(rng.choice(['min_iter', 'max_iter', 'tol']))
+        (A, subs_a), (B, subs_b) = build(dict(case)), build(dict(case))
+        ra = call(A.solve, **kw)
+        flags = []
+        rb = None
+        for t in range(case['n']):
+            r = call(B.solve_t, t, **kw)
+            if r[0] != 'ret':
+                rb = r
+                break
+            flags.append(r[1])
+        if rb is None:
+            rb = ('ret', (list(B.span), list(range(case['n'])), flags))
+        ctx.count('linker_solve_versus_loop_runs')
+        same_ret = ra[0] == rb[0] and (ra[0] != 'ret' or (list(ra[1][0]) == rb[1][0] and list(ra[1][1]) == rb[1][1] and list(ra[1][2]) == rb[1][2]))
+        if not same_ret:
+            ctx.violation('linker-solve-vs-loop', f'solve({kw}) -> {ra}; the ordered loop of solve_t -> {rb}', case)
+            continue
+        diff = {key: sorted(scripted.changed_cells(scripted.snapshot_model(subs_a[key]), scripted.snapshot_model(subs_b[key]))) for key in subs_a}
+        diff['_'] = sorted(scripted.changed_cells(scripted.snapshot_model(A), scripted.snapshot_model(B)))
+        if any(diff.values()):
+            ctx.violation('linker-solve-vs-loop', f'solve({kw}) and the ordered loop of solve_t leave different states: {dict((k, v[:4]) for k, v in diff.items() if v)}', case)
+        elif A.__dict__['v_log'] != B.__dict__['v_log']:
+            la, lb = A.__dict__['v_log'], B.__dict__['v_log']
+            k = next((j for j, (x, y) in enumerate(zip(la, lb)) if x != y), min(len(la), len(lb)))
+            ctx.violation('linker-solve-vs-loop', f'solve({kw}): call #{k} was {la[k] if k < len(la) else None}; in the ordered loop of solve_t it is {lb[k] if k < len(lb) else None}', case)
+
+
 def single_model_twin(ctx):
     """A linker wrapping one model and adding no equations == the model solved directly."""
     import fsic
@@ -417,7 +464,10 @@ def single_model_twin(ctx):
             if rng.random() < 0.2:
                 opts['offset'] = -1
             if 'log(' in script or '/ Y' in script:
-                opts['errors'] = rng.choice(['ignore', 'replace'])
+                # 'ignore' is the one policy under which model and linker agree by construction (a non-finite difference is never
+                # "less than tol"); 'replace' / 'skip' / 'raise' are model-level policies the linker does not implement and the
+                # statement's option lattice (min_iter / max_iter / tol / failures) does not include
+                opts['errors'] = 'ignore'
             from . import c05
             caller_filter = rng.choice(c05.CALLER_FILTERS)
             a = Model(range(n), **data)
